@@ -262,7 +262,7 @@ Record dcase := {
 Definition model_doc (d : dcase) : list N :=
   let k := d_case d in
   chrome_doc_items true (d_comms d)
-             (if d_noev d then [] else chrome_items (k_tasks k) (k_stream k) (k_args k) (d_renames d))
+             (if d_noev d then [] else chrome_items (k_tasks k) (k_cstream k) (k_args k) (d_renames d))
              (d_version d) (d_date d) (d_cmdline d).
 Definition agree_doc (d : dcase) : bool := bytes_eqb (model_doc d) (d_doc d).
 Definition okc_doc (d : dcase) : bool := json_ok (d_doc d).
